@@ -442,6 +442,13 @@ func RuleKNameAnchored(c *core.Ctx) {
 			if !unanchored[full] {
 				return
 			}
+			// strings.Replace(s, old, new, 1) rewrites the first occurrence only: on a
+			// name that starts with the pattern that is the prefix (anchored)
+			if full == "strings.Replace" && len(call.Call.Args) == 4 {
+				if k, ok := call.Call.Args[3].(*ssa.Const); ok && k.Int64() == 1 {
+					return
+				}
+			}
 			n++
 			c.Ob(rule, core.FuncName(fn)+":"+full+" on an account name", call.Pos(), core.FuncName(fn), core.Violated, full+" rewrites every occurrence of the pattern in the account's name, not only the segment it is meant for: a later segment containing the same text is changed too")
 		})
